@@ -535,9 +535,9 @@ Section Fwd.
   Variable ellipse : F * F -> F * F -> Z -> Z -> bool.
   Variable method : string.
   Variable has_radius merge : bool.
-  Variable srcc : F * F.
+  Variable srcc : @pt3 F.
   Variable freqs : list F.
-  Variable bipole : nat -> list F -> list F -> option (list F) ->
+  Variable bipole : nat -> @pt3 F -> list F -> list F -> option (list F) ->
                     option (list F) -> option (list F) -> list F -> list D.
 
   Notation fwd_row' := (fwd_row leb lg pw D g lname backward props vti has_mu has_eps ellipse
@@ -564,9 +564,9 @@ Section Fwd.
 
   (* one row: what each frequency slot holds *)
   Lemma fwd_row_spec i rc ofin row
-        (bipole1 : nat -> list F -> list F -> option (list F) -> option (list F) ->
+        (bipole1 : nat -> @pt3 F -> list F -> list F -> option (list F) -> option (list F) ->
                    option (list F) -> F -> D) :
-    (forall i d ch cv ep mp fs, bipole i d ch cv ep mp fs = map (bipole1 i d ch cv ep mp) fs) ->
+    (forall i q d ch cv ep mp fs, bipole i q d ch cv ep mp fs = map (bipole1 i q d ch cv ep mp) fs) ->
     List.length (mask_of freqs ofin) = List.length freqs ->
     fwd_row' i rc ofin = inr row ->
     forall j dflt, (j < List.length freqs)%nat ->
@@ -574,7 +574,7 @@ Section Fwd.
       (nth j (mask_of freqs ofin) false = true ->
        exists e, extract_for' rc = inr e /\
          nth j row None =
-         Some (bipole1 i (depth_of e) (cond_h_of backward e) (cond_v_of backward vti e)
+         Some (bipole1 i (rec_abs srcc rc) (depth_of e) (cond_h_of backward e) (cond_v_of backward vti e)
                        (eperm_of vti has_mu has_eps e) (mperm_of vti has_mu e)
                        (nth j freqs dflt))).
   Proof.
@@ -592,9 +592,9 @@ Section Fwd.
   Qed.
 
   Lemma layered_fwd_spec rcs observed rows
-        (bipole1 : nat -> list F -> list F -> option (list F) -> option (list F) ->
+        (bipole1 : nat -> @pt3 F -> list F -> list F -> option (list F) -> option (list F) ->
                    option (list F) -> F -> D) :
-    (forall i d ch cv ep mp fs, bipole i d ch cv ep mp fs = map (bipole1 i d ch cv ep mp) fs) ->
+    (forall i q d ch cv ep mp fs, bipole i q d ch cv ep mp fs = map (bipole1 i q d ch cv ep mp) fs) ->
     (forall o i, observed = Some o -> (i < List.length rcs)%nat ->
                  List.length (nth i o []) = List.length freqs) ->
     layered_fwd leb lg pw D g lname backward props vti has_mu has_eps ellipse method has_radius
@@ -606,7 +606,7 @@ Section Fwd.
       (fin = true ->
        exists e, extract_for' rc = inr e /\
          nth j (nth i rows []) None =
-         Some (bipole1 i (depth_of e) (cond_h_of backward e) (cond_v_of backward vti e)
+         Some (bipole1 i (rec_abs srcc rc) (depth_of e) (cond_h_of backward e) (cond_v_of backward vti e)
                        (eperm_of vti has_mu has_eps e) (mperm_of vti has_mu e)
                        (nth j freqs dflt))).
   Proof.
@@ -671,15 +671,16 @@ Section Grad.
   Variable ellipse : R * R -> R * R -> Z -> Z -> bool.
   Variable method : string.
   Variable has_radius merge : bool.
-  Variable srcc : R * R.
+  Variable srcc : @pt3 R.
   Variable freqs : list R.
-  Variable bipole : nat -> list R -> list R -> option (list R) ->
+  Variable bipole : nat -> @pt3 R -> list R -> list R -> option (list R) ->
                     option (list R) -> option (list R) -> list R -> list (R * R).
+  Variable gmerge : bool.          (* the merge flag handed to extract_1d *)
 
   Notation grad_rec' := (grad_rec leb log10R pow10R g lname backward props vti has_mu has_eps
-                                  ellipse method has_radius merge srcc freqs bipole).
+                                  ellipse method has_radius srcc freqs bipole gmerge).
   Notation grad_loop' := (grad_loop leb log10R pow10R g lname backward props vti has_mu has_eps
-                                    ellipse method has_radius merge srcc freqs bipole).
+                                    ellipse method has_radius srcc freqs bipole gmerge).
   Notation S2 := (@zsum2 R LROps (g_nx g) (g_ny g)).
 
   Definition gterm : Type := option ((Z -> Z -> R) * list R * option (list R)).
@@ -696,7 +697,7 @@ Section Grad.
     destruct (Nat.eqb (count_true fi) 0); [discriminate|].
     destruct (extract_for _ _ _ _ _ _ _ _ _ _ _ rc) as [er|e] eqn:E; [discriminate|].
     intros H. inversion H; subst im. unfold extract_for in E.
-    destruct (get_points method srcc rc) as [[mth p0] p1].
+    destruct (get_points method (xy srcc) (xy (rec_abs srcc rc))) as [[mth p0] p1].
     exact (proj1 (proj2 (extract_1d_imat leb g nx_pos ny_pos hx_pos hy_pos _ _ _ _ _ _ _ _ _ E))).
   Qed.
 
@@ -748,8 +749,7 @@ Section Grad.
 
   (* fd_gradient_layer_sum *)
   Lemma layered_grad_sum rds o0 o2 :
-    layered_grad leb log10R pow10R g lname backward props vti has_mu has_eps ellipse method
-                 has_radius merge srcc freqs bipole (Some rds) = inr (o0, o2) ->
+    grad_loop' 0%nat rds (zero3, zero3) = inr (o0, o2) ->
     exists terms : list gterm,
       List.length terms = List.length rds /\
       (forall n rd, nth_error rds n = Some rd -> grad_rec' n rd = inr (nth n terms None)) /\
@@ -757,7 +757,7 @@ Section Grad.
         S2 (fun i j => o0 i j k) = sumL (map (term_h k) terms) /\
         S2 (fun i j => o2 i j k) = sumL (map (term_v k) terms).
   Proof.
-    unfold layered_grad. intros H.
+    intros H.
     destruct (grad_loop_sum _ _ _ _ H) as (terms & L & N & Hs).
     exists terms. split; auto. split; [exact N|].
     intros k Hk. destruct (Hs k Hk) as [A B]. cbn [fst snd] in A, B.
@@ -767,6 +767,65 @@ Section Grad.
   (* missing weights / residual / observed: zero gradient *)
   Lemma layered_grad_none :
     layered_grad leb log10R pow10R g lname backward props vti has_mu has_eps ellipse method
-                 has_radius merge srcc freqs bipole None = inr (zero3, zero3).
+                 has_radius srcc freqs bipole None = inr (zero3, zero3).
   Proof. reflexivity. Qed.
 End Grad.
+
+(* ---- the gradient branch extracts WITHOUT merge: one value per model layer -- *)
+Section GradLen.
+  Context {F : Type} {O : FOps F}.
+  Variable leb : F -> F -> bool.
+  Variable lg pw : F -> F.
+  Variable g : @grid F.
+  Variable lname : bool.
+  Variable backward : F -> F.
+  Variable props : list (Z -> Z -> Z -> F).
+  Variables (vti has_mu has_eps : bool).
+  Variable ellipse : F * F -> F * F -> Z -> Z -> bool.
+  Variable method : string.
+  Variable has_radius : bool.
+  Variable srcc : @pt3 F.
+  Variable freqs : list F.
+  Variable bipole : nat -> @pt3 F -> list F -> list F -> option (list F) ->
+                    option (list F) -> option (list F) -> list F -> list (F * F).
+
+  Lemma extract_1d_nomerge_len mth p0 p1 e n :
+    extract_1d leb lg pw g lname props ellipse mth has_radius p0 p1 false = inr e ->
+    (n < List.length props)%nat ->
+    List.length (nth n (e_props e) []) = Z.to_nat (g_nz g).
+  Proof.
+    unfold extract_1d. destruct (xmethod_of mth) as [m|]; [|discriminate].
+    set (q := match p1 with Some q => q | None => p0 end).
+    assert (G : forall e', e' = extract_core leb lg pw g lname false m (ellipse p0 q) p0 q props ->
+                (n < List.length props)%nat ->
+                List.length (nth n (e_props e') []) = Z.to_nat (g_nz g)).
+    { intros e' -> Hn. unfold extract_core.
+      destruct (snd (sel leb g m (ellipse p0 q) p0 q)) as [[[six eix] siy] eiy].
+      cbn [e_props].
+      set (f := layer_vals lg pw g lname _ _).
+      rewrite (nth_indep _ [] (f (fun _ _ _ => 0%F))) by (now rewrite map_length).
+      rewrite (map_nth f). unfold f, layer_vals. rewrite map_length, zrange_length.
+      f_equal. lia. }
+    destruct m, has_radius; try discriminate; intros E Hn; inversion E; apply G; auto.
+  Qed.
+
+  Lemma grad_rec_len i rd im gh gv :
+    props <> [] ->
+    grad_rec leb lg pw g lname backward props vti has_mu has_eps ellipse method has_radius
+             srcc freqs bipole false i rd = inr (Some (im, gh, gv)) ->
+    List.length gh = Z.to_nat (g_nz g) /\
+    (forall v, gv = Some v -> List.length v = Z.to_nat (g_nz g)).
+  Proof.
+    intros Hp. unfold grad_rec. destruct rd as [[[[rc fi] obsd] wgtd] resd].
+    destruct (Nat.eqb (count_true fi) 0); [discriminate|].
+    destruct (extract_for _ _ _ _ _ _ _ _ _ _ _ rc) as [er|e] eqn:E; [discriminate|].
+    intros H. inversion H; subst im gh gv. unfold extract_for in E.
+    destruct (get_points method (xy srcc) (xy (rec_abs srcc rc))) as [[mth p0] p1].
+    assert (L : List.length (cond_h_of backward e) = Z.to_nat (g_nz g)).
+    { unfold cond_h_of. rewrite map_length.
+      apply (extract_1d_nomerge_len _ _ _ _ _ E). destruct props; [congruence|cbn; lia]. }
+    split.
+    - now rewrite fd_grad_length.
+    - destruct vti; intros v Hv; inversion Hv. now rewrite fd_grad_length.
+  Qed.
+End GradLen.
